@@ -168,3 +168,73 @@ func c13WriterRun(c *hx.Ctx, r *hx.Rng, bp [][]*batchOp, run int) {
 		c.Distinct("c13w|" + strings.Join(order, ",") + fmt.Sprint(anchorFail, casFail))
 	}
 }
+
+// c13TwoWritersOneQueue: two batch writers of a node share one operation queue (what a clustered deployment does). The second
+// writer runs a whole cutting cycle between the first writer's look at the head of the queue and its removal of a batch (a
+// suspension point the harness owns: the queue is a caller-provided component). Every queued operation reads back from exactly
+// one anchored batch.
+func c13TwoWritersOneQueue(c *hx.Ctx) {
+	r := c.Rng("two-writers")
+	for run := 0; run < c.N(12, 200); run++ {
+		if c.Violations() > 8 {
+			return
+		}
+		c.Eval()
+		p := c13Proto(ref.SHA256)
+		p.MaxOperationCount = uint(2 + r.Intn(2))
+		bp := batchPool(r, ref.SHA256, 6+r.Intn(4), false)
+		l := &wlog{}
+		v := hx.NewVersion(p, hx.VersionOpts{CAS: hx.NewMemCAS()})
+		pc := hx.NewClient(v)
+		var a, b *batch.Writer
+		nested, active := false, false
+		q := newRecQueue(l, func(point string) {
+			if point == "q.remove" && active && !nested && r.Chance(2, 3) {
+				nested = true
+				b.VerifProcessAvailable(true)
+				nested = false
+			}
+		})
+		anchor := &recAnchor{log: l, yield: func(string) {}}
+		var err error
+		if a, err = batch.New(hx.Namespace, &writerCtx{pc: pc, a: anchor, q: q}); err == nil {
+			b, err = batch.New(hx.Namespace, &writerCtx{pc: pc, a: anchor, q: q})
+		}
+		if err != nil {
+			c.Inconclusive("batch.New: %v", err)
+			return
+		}
+		var queued []*batchOp
+		for _, ops := range bp {
+			if err := a.Add(ops[0].queued(), p.GenesisTime); err != nil {
+				c.Violation("C13 batch writer refused a valid create: "+err.Error(), nil)
+				return
+			}
+			queued = append(queued, ops[0])
+		}
+		active = true
+		for k := 0; k < 2*len(queued)+4; k++ {
+			a.VerifProcessAvailable(true)
+		}
+		active = false
+		seen := map[string]int{}
+		for _, anchorStr := range anchor.Seen {
+			got, err := v.Provider.GetTxnOperations(&txn.SidetreeTxn{AnchorString: anchorStr, Namespace: hx.Namespace, TransactionTime: 1, ProtocolVersion: p.GenesisTime})
+			if err != nil {
+				c.Violation(fmt.Sprintf("C13 a batch anchored by one of two writers sharing a queue cannot be read back: %v", err), map[string]interface{}{"log": logStrings(l.evs)})
+				return
+			}
+			for _, o := range got {
+				seen[o.UniqueSuffix]++
+			}
+		}
+		for _, o := range queued {
+			if seen[o.Suffix] != 1 {
+				c.Violation(fmt.Sprintf("C13 queued operation %s reads back from %d anchored batches (two writers sharing one queue, the second one cutting between the first one's look at the queue and its removal): not accounted for exactly once", o.ID, seen[o.Suffix]),
+					map[string]interface{}{"queued": len(queued), "batches": len(anchor.Seen), "log": logStrings(l.evs)})
+				return
+			}
+		}
+		c.Count("runs_with_two_writers_on_one_queue")
+	}
+}
